@@ -37,7 +37,17 @@ def c14_lines(rnd, n):
             small = 1 + sum((e - 1) * s for e, s in zip(es, ss if ss else ([C.prod(es[:k]) for k in range(r)] if kind == 'left' else [C.prod(es[k + 1:]) for k in range(r)]))) < 2000
             lines.append('v14 ' + base + ' obs' + ((' ' + C.fmt(ix)) if (small and r) else ''))
         else: lines.append('v14 ' + base + ' obs')
-    return [l for l in lines if not (l.startswith('v14') and ' pat=- ' in l and False)]
+    # extents with mixed patterns through the four pre-C++20 construction paths (distinct values at the dynamic positions)
+    for t in ('i32', 'u8', 'i64'):
+        for pat in ('D,3,D', '2,D,D', 'D,D,4', 'D,3', 'D,D,D', 'D,3,D,D', '2,3'):
+            ps = pat.split(',')
+            for k in ('pack_all', 'pack_dyn', 'array_all', 'array_dyn'):
+                for _ in range(2):
+                    dyn = rnd.sample(range(1, 9), len([p for p in ps if p == 'D'])) if any(p == 'D' for p in ps) else []
+                    it = iter(dyn); allv = [int(p) if p != 'D' else next(it) for p in ps]
+                    vals = allv if k.endswith('_all') else dyn
+                    lines.append('ext %s %s pat=%s k=%s vals=%s obs' % (t, t, pat, k, C.fmt(vals)))
+    return lines
 
 def check(prop, tier, seed, replay=None):
     rep = C.Report(prop, tier, seed); audit = C.proof_audit(prop); thorough = tier == 'thorough'
